@@ -21,7 +21,8 @@ func C07(r *h.Run) {
 	r.OracleFamily("wellformed", "the response to this request is not well-formed for the selected protocol under the strictly spec-following reader (SpecWire.v)")
 	protos := []string{"connect", "grpc", "grpcweb"}
 	kinds := []string{"unary", "client", "server", "bidi"}
-	timeouts := []string{"", "", "", "5000", "1", "0", "abc", "-5", "99999999999", "5S", "1n", "5s", "S", "100000000n", "+5S"}
+	timeouts := []string{"", "", "", "5000", "1", "0", "abc", "-5", "99999999999", "5S", "1n", "5s", "S", "100000000n", "+5S",
+		"00000005000", "00000000000000060000", "09999999999", "+0000060000", "1.5", "1h30", "0000000000", "9999999999"}
 	sents := []string{"", "", "", "identity", "tagA", "rle", "zstd", "gzip"}
 	accepts := []string{"", "tagA", "gzip,tagA", "zstd", "identity"}
 
